@@ -121,24 +121,29 @@ class Focused(Part):
             out, ex, sib = run_case(case, preempt_at=(single[0],), sparse=explore.line_sparse(single[1]), focus=FOCUS)
             judge(case, out, ex, sib)
             return dict(nontrivial=True)
-        out0, ex, sib = run_case(case, count_lines=True, sparse=dict(pre=[], blk=[]), focus=FOCUS)
-        judge(case, out0, ex, sib)
-        n = out0.lines
-        stride = explore.plan_stride(n, ctx.tier)
+        runs, viol, n, stride = 0, [], 0, 1
+        for order in (0, 1):
+            out0, ex, sib = run_case(case, count_lines=True, sparse=explore.base_sparse(order), focus=FOCUS)
+            judge(case, out0, ex, sib)
+            n = out0.lines
+            stride = explore.plan_stride(n, ctx.tier, 450)
 
-        def one(line, alt):
-            out, ex, sib = run_case(case, preempt_at=(line,), sparse=explore.line_sparse(alt), focus=FOCUS)
-            try:
-                judge(case, out, ex, sib)
-            except Violation as v:
-                v.sched = out.sched
-                raise
-            return out.sched
+            def one(line, alt):
+                out, ex, sib = run_case(case, preempt_at=(line,), sparse=explore.line_sparse(alt), focus=FOCUS)
+                try:
+                    judge(case, out, ex, sib)
+                except Violation as v:
+                    v.sched = out.sched
+                    raise
+                return out.sched
 
-        runs, found, inc = explore.single_preemptions(one, n, stride, ctx.seed, max_runs=None if ctx.tier == "thorough" else 900)
-        if inc:
-            ctx.count("inconclusive_runs", inc)
-        return dict(count=runs, nontrivial_count=runs, violations=[(v, dict(case, single=list(la))) for v, la in found][:3],
+            r, found, inc = explore.single_preemptions(one, n, stride, ctx.seed, order=order,
+                                                       max_runs=None if ctx.tier == "thorough" else 500)
+            runs += r
+            viol += [(v, dict(case, single=list(la))) for v, la in found]
+            if inc:
+                ctx.count("inconclusive_runs", inc)
+        return dict(count=runs, nontrivial_count=runs, violations=viol[:3],
                     nontrivial=True, labels=labels_of(case) + ["complete" if stride == 1 else "strided"],
                     sample={"focus_lines": n, "runs": runs, "stride": stride})
 
